@@ -1075,8 +1075,16 @@ class SFloat:
     def __float__(self):
         self.eng._raise(Unsupported("symbolic float reached a C-level float() conversion"))
 
+    def __trunc__(self):
+        """int(x) / math.trunc(x): towards zero (one solver-decided branch on the sign)"""
+        if self.eng.mode != "real":
+            self.eng._raise(Unsupported("int() of a symbolic float in fp mode"))
+        if bool(self >= 0):
+            return math.floor(self)
+        return math.ceil(self)
+
     def __int__(self):
-        self.eng._raise(Unsupported("symbolic float reached int()"))
+        self.eng._raise(Unsupported("symbolic float reached a C-level int() conversion"))
 
     def __repr__(self):
         return f"<SFloat {self.t}>"
